@@ -26,13 +26,121 @@ def build_driver():
 class C04(F.PropCheck):
     pid = 'C04'; gen_groups = ['ProtoConsts', 'C04Consts']; prop_file = 'Properties_C04'
     IN = {'CFG': 0, 'ADV': 1, 'WIFI': 2, 'CONNCB': 3, 'DISCCB': 4, 'RECV': 5, 'SENTMODE': 6, 'SENTRES': 7, 'LOCAL': 8}
-    OUT = {0: 'WIFISTART', 1: 'CONNECT', 2: 'DISCONNECT', 3: 'FRESH', 4: 'WIRE', 5: 'JUNK', 6: 'RESTART', 7: 'STATE', 8: 'FUEL'}
+    OUT = {0: 'WIFISTART', 1: 'CONNECT', 2: 'DISCONNECT', 3: 'FRESH', 4: 'WIRE', 5: 'JUNK', 6: 'RESTART', 7: 'STATE', 8: 'FUEL', 9: 'RX', 10: 'DISCD'}
     quick_cases = 2000; thorough_cases = 50000
     def build_impl(self): return build_driver()
     def compare(self, case, mo, io):
         # payload bytes of WIRE lines are not modelled (zeros of the right size in the model)
         strip = lambda l: [(k, ints, b'' if k == 'WIRE' else d) for (k, ints, d) in l]
         return F.PropCheck.compare(self, case, (mo[0], strip(mo[1])), (io[0], strip(io[1])))
+    # ---------------- monitor: the property on the implementation trace (no model involved)
+    def originated_ids(self):
+        c = K()
+        return {c[k] for k in ('CALL_VALUE_CHANGED', 'CALL_VALUE_CHANGED_B', 'CALL_VALUE_CHANGED_C', 'CALL_EXTVALUE_CHANGED', 'CALL_ACTION_TRIGGER',
+                               'CALL_PING', 'CALL_SET_ACTIVITY_TIMEOUT', 'CALL_GET_CHANNEL_CONFIG', 'CALL_GET_FIRMWARE_URL',
+                               'CALL_GET_USER_LOCALTIME', 'CALL_GET_CHANNEL_FUNCTIONS', 'CALL_SET_CHANNEL_CONFIG')}
+    def register_ids(self):
+        c = K(); return {c[k] for k in ('CALL_REGISTER', 'CALL_REGISTER_B', 'CALL_REGISTER_C', 'CALL_REGISTER_D', 'CALL_REGISTER_E', 'CALL_REGISTER_F')}
+    def server_frames(self, chunks):
+        """chunks: [(t, bytes)] delivered on one connection -> [(t_complete, call_id, payload)] for the well-formed prefix"""
+        c = K(); TAG = bytes(c['TAG']); HDR = c['SDP_SIZE'] - c['MAX_DATA_SIZE']; res = []; buf = b''
+        for (t, b) in chunks:
+            buf += b
+            while True:
+                if len(buf) < HDR + len(TAG): break
+                if buf[:len(TAG)] != TAG: return res
+                ver = buf[c['OFF_VERSION']]; rr, call, ds = struct.unpack_from('<III', buf, c['OFF_RR_ID'])
+                if ver > c['PROTO_VERSION'] or ver < c['PROTO_VERSION_MIN'] or ds > c['MAX_DATA_SIZE']: return res
+                if len(buf) < HDR + ds + len(TAG): break
+                if buf[HDR + ds:HDR + ds + len(TAG)] != TAG: return res
+                res.append((t, call, buf[HDR:HDR + ds])); buf = buf[HDR + ds + len(TAG):]
+        return res
+    def check_register_payload(self, p, nch):
+        c = K(); bad = []
+        if len(p) != c['REG_BASE_SIZE'] + nch * c['REG_CHANNEL_SIZE']: return ['length %d' % len(p)]
+        if p[c['REG_OFF_GUID']:c['REG_OFF_GUID'] + c['GUID_SIZE']] != bytes(0x10 + i for i in range(c['GUID_SIZE'])): bad.append('GUID')
+        if p[c['REG_OFF_AUTHKEY']:c['REG_OFF_AUTHKEY'] + c['AUTHKEY_SIZE']] != bytes(0x40 + i for i in range(c['AUTHKEY_SIZE'])): bad.append('AuthKey')
+        if not p[c['REG_OFF_EMAIL']:].startswith(b'user@example.org\0'): bad.append('e-mail')
+        if not p[c['REG_OFF_SOFTVER']:].startswith(bytes(c['SOFTVER']) + b'\0'): bad.append('software version')
+        if p[c['REG_OFF_CHANNEL_COUNT']] != nch: bad.append('channel count')
+        for i in range(nch):
+            if p[c['REG_OFF_CHANNELS'] + i * c['REG_CHANNEL_SIZE']] != i: bad.append('channel %d' % i); break
+        return bad
+    def monitor(self, case, status, outs):
+        v = []
+        if status != 'ok': return v        # crashes are not this property's business
+        c = K(); ORIG = self.originated_ids(); REGS = self.register_ids()
+        evs = case.evs
+        nch = min(8, evs[0][1][2]) if evs and evs[0][0] == 'CFG' and len(evs[0][1]) > 2 else 0
+        # which send results were in force at which event index (for the clauses that presuppose that sent bytes are not lost)
+        dirty_from = None
+        for i, (k, ints, _) in enumerate(evs):
+            if (k == 'SENTMODE' and ints and ints[0] != 0) or (k == 'SENTRES' and any(x != 0 for x in ints)):
+                dirty_from = i; break
+        conns = {}        # n -> dict(t0, i0, frames, chunks, t_end, i_end)
+        tlast = 0
+        for (k, ints, data) in outs:
+            if ints and k in ('FRESH', 'WIRE', 'RX', 'DISCD', 'CONNECT', 'DISCONNECT', 'RESTART', 'STATE', 'WIFISTART', 'JUNK'): tlast = max(tlast, ints[0])
+            if k == 'FRESH':
+                t, n, esp, rcv, reg, i = ints
+                conns[n] = dict(t0=t, i0=i, frames=[], chunks=[], t_end=None, i_end=None, closed_by=None)
+                if esp != 0 or rcv != 0:
+                    v.append('connection %d starts with %d unsent and %d received bytes left over from the previous connection' % (n, esp, rcv))
+                elif reg != 0:
+                    v.append('connection %d starts with registered=%d' % (n, reg))
+            elif k == 'WIRE' and ints[1] in conns and conns[ints[1]]['t_end'] is None:
+                conns[ints[1]]['frames'].append((ints[0], ints[2], ints[3], bytes(data)))
+            elif k == 'RX' and ints[1] in conns:
+                i = ints[2]
+                if 0 <= i < len(evs) and evs[i][0] == 'RECV': conns[ints[1]]['chunks'].append((ints[0], bytes(evs[i][2])))
+            elif k in ('DISCD', 'DISCONNECT', 'CONNECT', 'RESTART'):
+                for n, d in conns.items():
+                    if d['t_end'] is None and (k != 'DISCD' or ints[1] == n):
+                        d['t_end'] = ints[0]; d['closed_by'] = k; d['i_end'] = ints[2] if k == 'DISCD' else None
+        for n, d in sorted(conns.items()):
+            srv = self.server_frames(d['chunks'])
+            t_ok = None; t_ref = None
+            for (t, call, pay) in srv:
+                if call == c['SRV_REGISTER_RESULT'] and len(pay) == c['SZ_REGISTER_RESULT']:
+                    code = struct.unpack_from('<i', pay, c['OFF_RESULT_CODE'])[0]
+                    if code == c['RESULTCODE_TRUE']:
+                        if t_ok is None: t_ok = t
+                    elif t_ref is None: t_ref = t
+                elif call == c['SRV_VERSIONERROR'] and len(pay) == c['SZ_VERSIONERROR'] and t_ref is None: t_ref = t
+            fr = d['frames']
+            # quiet until accepted
+            for (t, call, rr, pay) in fr:
+                if call in ORIG and (t_ok is None or t < t_ok):
+                    v.append('connection %d: device-originated call %d on the wire at %d us, before the server accepted the registration' % (n, call, t)); break
+            # first frame / exactly one registration (only where no send result can have lost bytes)
+            clean = dirty_from is None or (d['i_end'] is not None and d['i_end'] < dirty_from)
+            if dirty_from is not None and d['i_end'] is None and d['i0'] > dirty_from:
+                # connection opened after the last non-zero result was set: clean iff the mode is back to 0 and no script is pending
+                mode = 0; script = False
+                for i, (k, ints, _) in enumerate(evs[:d['i0']]):
+                    if k == 'SENTMODE' and ints: mode = ints[0]
+                    if k == 'SENTRES': script = any(x != 0 for x in ints)
+                later = any((k == 'SENTMODE' and ints and ints[0] != 0) or (k == 'SENTRES' and any(x != 0 for x in ints)) for (k, ints, _) in evs[d['i0']:])
+                clean = (mode == 0 and not script and not later)
+            if clean and fr:
+                if fr[0][1] not in REGS:
+                    v.append('connection %d: first frame on the wire is call %d (rr %d), not the registration' % (n, fr[0][1], fr[0][2]))
+                else:
+                    bad = self.check_register_payload(fr[0][3], nch)
+                    if bad: v.append('connection %d: registration request does not carry the configured %s' % (n, ', '.join(bad)))
+                nreg = sum(1 for f in fr if f[1] in REGS)
+                if nreg > 1: v.append('connection %d: %d registration requests' % (n, nreg))
+            if clean and not fr:
+                end = d['t_end'] if d['t_end'] is not None else tlast
+                if end - d['t0'] >= 2000000 and not any(k == 'RESTART' for (k, _, _) in outs):
+                    v.append('connection %d: no registration request within 2 s' % n)
+            # refusal: the connection is closed
+            if t_ref is not None and t_ok is None:
+                end = d['t_end'] if d['t_end'] is not None else None
+                if end is None and tlast - t_ref >= 10000000:
+                    v.append('connection %d: still open 10 s after the server refused the registration' % n)
+        return v
+
     # ---------------- generators
     REFUSALS = [0, 1, 2, 4, 5, 6, 7, 8, 9, 10, 11, 12, 13, 14, 15, 17, 18, 19, 20, 21, 22, 23, 26, 32, 37, 39, 99, -1]
     def gen_msg(self, rng, rr):
